@@ -1,23 +1,39 @@
 #!/usr/bin/env python3
-"""tools/seed_prompt.py <prop> <n>: print the prompt for an independent seeding sub-agent (property text only,
-own scratch worktree /tmp/seed<n>-<prop>); the worktree must exist (tools/seed_prepare.sh)."""
+"""tools/seed_prompt.py <prop> <seed-id>  -> prints the prompt for an independent seed-writing sub-agent.
+The agent gets the property text and its own scratch worktree, nothing from /verif."""
 import json, sys, glob, os
-pid, n = sys.argv[1], sys.argv[2]
-prop = next(json.loads(l) for l in open('/verif/properties.jsonl') if json.loads(l)['id'] == pid)
-earlier = []
-for d in sorted(glob.glob(f'/verif/seeded/{pid}-*')):
-    try: earlier.append(json.load(open(d + '/meta.json')).get('breaks', '')[:300])
+pid, sid = sys.argv[1], sys.argv[2]
+p = next(json.loads(l) for l in open('/verif/properties.jsonl') if json.loads(l)['id'] == pid)
+prev = []
+for m in sorted(glob.glob(f'/verif/seeded/{pid}-*/meta.json')):
+    try: prev.append(json.load(open(m)).get('breaks', '')[:300])
     except Exception: pass
-wt = f'/tmp/seed{n}-{pid}'
-print(f"""You are an independent software engineer asked to plant one realistic, subtle regression in a Rust code base, to test a verification team's tooling. You work ONLY inside your own scratch git worktree {wt} (a checkout of NLnetLabs/rotonda, a BGP/BMP collector; it builds and tests OFFLINE: always pass --offline to cargo; a warm build directory is already in {wt}/target). Do not read or touch anything under /verif or /repo, and nothing outside {wt}. Ignore the module src/verif and anything behind `#[cfg(feature = "verif-hooks")]` (test instrumentation; do not edit it, do not rely on it). Every shell command prints a harmless conda warning first; ignore it.
+wt = f'/tmp/seedwt/{sid}'
+out = f'/tmp/seedout/{sid}'
+print(f"""You are helping test a verification effort for the Rust project NLnetLabs/rotonda (a modular BGP/BMP engine). Your job is to write ONE realistic, subtle code change ("mutation") to rotonda that BREAKS the semantic property below, while the crate still compiles and the project's existing test suite still passes, plus a demonstration that fails with your change and passes without it. The change will be used to find out whether independent verification machinery notices it, so it must be independent work: work ONLY inside your own scratch git worktree {wt} (a checkout of the repository with a warm build directory {wt}/target). Do NOT read or touch /verif or /repo at all, and do not look outside {wt} except the cargo registry (~/.cargo/registry/src) for dependency sources. There is no network: always pass --offline to cargo (CARGO_NET_OFFLINE=true).
 
-The semantic property that is supposed to hold of this code base:
+THE PROPERTY ({pid}): {p['title']}
+Statement: {p['statement']}
+Quantified over: {p['quantifier']['text']}
+Code anchors: {json.dumps(p['anchors'])}
 
-{json.dumps(prop, indent=1)}
+(Code under `#[cfg(feature = "verif-hooks")]`, `src/verif/` and files named `verif_hooks*.rs` is test instrumentation that is compiled out by default: ignore it, do not change it, and do not rely on it.)
 
-YOUR TASK: make ONE change to the non-test source of rotonda (under {wt}/src, or a vendored dependency only if unavoidable) that BREAKS this property while (a) the crate still compiles without new warnings-as-errors, (b) the existing test suite still passes: `cd {wt} && cargo test --offline --workspace --no-fail-fast -- --skip connection_accepted_count_metric_should_work --skip listener_bound_count_metric_should_work --skip retry_with_backoff_on_accept_error` (those three are known flaky), and (c) the change looks like something a maintainer could plausibly commit (a refactor, an optimisation, a clean-up, a "simplification", a feature tweak) — not a marker, not dead code, not a special case on a magic value. The change must need something SPECIFIC to manifest: a particular interleaving, a fault or connection loss at a particular point, a multi-step sequence of operations, an unusual but legal input, a boundary size, or two cooperating sites that each look fine alone. Ordinary single-step use must still behave correctly, so that casual testing would not expose it.
-{('Earlier planted changes for this property did the following; do something DIFFERENT in mechanism and location: ' + ' || '.join(earlier)) if earlier else ''}
+WHAT MAKES A GOOD CHANGE
+* It looks like something a maintainer could plausibly commit: a refactor, an optimisation (a cache, an early return, a fast path), a "simplification", a reordering, a boundary condition, a new small feature with a flaw — NOT a blatant sabotage, not a `if input == magic`, no dead giveaway comments. Keep it small (typically 5-40 changed lines) and in non-test, non-instrumentation code.
+* It must need something SPECIFIC to manifest: a particular interleaving, a fault or connection loss at a particular point, a multi-step sequence of operations, an unusual-but-legal input, a size/boundary, or two cooperating sites that each look fine alone. Ordinary simple use must keep working exactly as before (the existing tests must pass).
+* It must make the property as stated above false on the real code for some input/history the property quantifies over. Be precise about which clause of the statement it breaks.
+* Prefer a part of the anchored code (or code the property's behaviour depends on) and a mechanism different from these earlier ideas, which have already been used: {json.dumps(prev) if prev else 'none yet'}
 
-Then write a DEMONSTRATION: a new `#[cfg(test)]` test (or test module) inside the crate, in a separate diff, whose name contains `seed{n}_demo`, that FAILS with your change and PASSES without it, run as `cargo test --offline --lib -- seed{n}_demo`. Verify all of this yourself (demo fails with the change, passes without, suite passes with the change only).
+DELIVERABLES — write them to {out}/ (create the directory):
+1. patch.diff — `git diff` of the change alone (relative to the worktree's HEAD), applying with `git apply` at the repository root.
+2. demo.diff — a separate `git diff` that adds ONLY the demonstration: an in-crate `#[cfg(test)]` test (or tests) whose function name contains `{sid.replace('-', '_').lower()}_demo`, placed in an existing source file's test module or a new test module, which FAILS (assert/panic/timeout turned into a failure) with patch.diff applied and PASSES without it. It must be deterministic (if it depends on an interleaving, force the interleaving, or bound waits with timeouts), run in well under 2 minutes, and use no network beyond loopback. demo.diff must apply on top of HEAD both with and without patch.diff (so do not put the demo inside lines the patch changes).
+3. meta.json — {{"property": "{pid}", "demo_filter": "{sid.replace('-', '_').lower()}_demo", "breaks": "<one paragraph: what is now wrong, which clause>", "needs": "<what specific input/sequence/interleaving it needs to manifest>", "source": "independent sub-agent ({sid})"}}
+4. SEED_REPORT.md — short: the idea, why existing tests do not notice, the exact commands you ran and their results.
 
-DELIVERABLES, in {wt}/.seed/ (create the directory): `patch.diff` (git diff of the source change only, applies with `git apply` to a clean checkout), `demo.diff` (git diff of the demonstration only, applies on top of a clean checkout AND on top of patch.diff), `meta.json` with keys "property" ("{pid}"), "demo_filter" (the test name filter), "breaks" (one or two sentences: what no longer holds), "needs" (what it takes to manifest), "source" ("independent sub-agent (seeder{n}-{pid})"), and `SEED_REPORT.md` (what you changed, why it is plausible, why the suite does not notice, the exact commands you ran and their results). Leave the worktree with both diffs applied or not, it does not matter. Final message: ≤ 120 words summarising the change and confirming the three verifications.""")
+YOU MUST VERIFY, in {wt}, before finishing (and state the results in SEED_REPORT.md):
+ a. with patch + demo applied: `CARGO_NET_OFFLINE=true cargo test --offline --lib -- {sid.replace('-', '_').lower()}_demo` FAILS;
+ b. with only the demo applied (patch reverted): the same command PASSES;
+ c. with only the patch applied (demo reverted): the whole existing suite passes: `CARGO_NET_OFFLINE=true cargo test --offline --workspace --no-fail-fast -- --skip connection_accepted_count_metric_should_work --skip listener_bound_count_metric_should_work --skip retry_with_backoff_on_accept_error` (about 5-6 minutes; those three tests are known-flaky and excluded). 71+ tests must pass, 0 fail.
+ d. both diffs apply cleanly to a clean HEAD (`git stash` or `git checkout -- .` then `git apply --check`).
+Leave the worktree clean of build junk outside target/. Do not commit anything. Builds are slow (a rebuild of the crate after an edit takes 1-2 minutes): think first, read the code carefully, then edit. Your final message: 5-10 lines summarising the change, what it needs to manifest, and the results of a-d.""")
